@@ -1080,3 +1080,123 @@ static void copy_run (long item)
 	sb_free (&S[0].desc); sb_free (&S[1].desc); sb_free (&before); sb_free (&after); sb_free (&hist);
 }
 Family fam_copy = { "copy", "prefix ; mpq_QScopy_prob ; interleaved steps on original and copy (C16); --opt steps=N", copy_init, copy_count, copy_run, NULL, 60 };
+
+/* =====================================================================
+ * C06 growth tier: long ENUMERATED histories that cross the internal growth thresholds
+ * (row/column arrays grow in steps of 100, the matrix in steps of 1000 entries):
+ * item = (k in {99,100,101,199,200,201}, shape, delete position); build k columns and k rows one call at a
+ * time (or fill the matrix entry by entry up to nz in {999,1000,1001,2001}), conform at checkpoints,
+ * delete at every interesting position, add again, conform, and finally solve against a fresh copy.
+ * ===================================================================== */
+static const int GK[6] = { 99, 100, 101, 199, 200, 201 };
+static const int GNZ[4] = { 999, 1000, 1001, 2001 };
+#define GPOS 8
+#define GSHAPES 4   /* 0 rows first then cols (add_col with coefs) ; 1 cols first then rows ; 2 interleaved ; 3 nz fill by change_coef */
+static void grow_init (void) { build_alphabets (); }
+static long grow_count (void) { return 6L * GSHAPES * GPOS; }
+static int gconf (HState * S, const char *stage, SBuf * desc)
+{
+	char why[600];
+	STAT ("checkpoints");
+	if (qsx_conform (S->p, S->M, 1, why, sizeof why)) {
+		char sig[64]; snprintf (sig, sizeof sig, "grow-nonconform");
+		if (strstr (why, "get_nzcount")) snprintf (sig, sizeof sig, "grow-nzcount");
+		viol ("C06", sig, "queries disagree with the model at stage '%s': %s [history: %s]", stage, why, desc->s);
+		return 1;
+	}
+	return 0;
+}
+static void grow_run (long item)
+{
+	int pi = (int) (item % GPOS), shape = (int) ((item / GPOS) % GSHAPES), ki = (int) (item / (GPOS * GSHAPES));
+	int k = GK[ki];
+	static const int posv[GPOS] = { 0, 1, 50, 98, 99, 100, -2, -1 };
+	HState S; memset (&S, 0, sizeof S);
+	sb_init (&S.desc); sb_reserve (&S.desc, 4096);
+	SBuf desc; sb_init (&desc);
+	size_t mem0 = 0;
+	qsx_log_reset ();
+	if (mem_tracking ()) mem0 = mem_now ();
+	qsx_start ();
+	S.M = ref_new (REF_MIN);
+	S.p = mpq_QScreate_prob ("grow", QS_MIN);
+	mpq_t a, b, c, z; mpq_init (a); mpq_init (b); mpq_init (c); mpq_init (z);
+	int ind[40]; mpq_t val[40]; for (int i = 0; i < 40; i++) mpq_init (val[i]);
+	char nm[32];
+	int bad = 0, rv = 0;
+	sb_printf (&desc, "grow k=%d shape=%d delpos=%d", k, shape, posv[pi]);
+#define ADDCOL(j, withcoef) do { int kk = 0; if (withcoef) for (int r = (j) % 7; r < S.M->m && kk < 3; r += 1 + (j) % 5) { ind[kk] = r; mpq_set_si (val[kk], 1 + ((j) + r) % 3, 1 + (j) % 2); kk++; } \
+		mpq_set_si (a, 1 + (j) % 4, 1); mpq_set_si (b, 0, 1); mpq_set_si (c, 10 + (j) % 3, 1); snprintf (nm, sizeof nm, "v%d", (j)); \
+		rv = mpq_QSadd_col (S.p, kk, ind, val, a, b, c, nm); STAT ("api_transitions"); if (rv) { bad = 1; break; } \
+		int cj = ref_add_col (S.M, a, b, 0, c, 0, nm); for (int q = 0; q < kk; q++) mpq_set (REF_A (S.M, ind[q], cj), val[q]); } while (0)
+#define ADDROW(i, withcoef) do { int kk = 0; if (withcoef) for (int cc = (i) % 5; cc < S.M->n && kk < 3; cc += 1 + (i) % 7) { ind[kk] = cc; mpq_set_si (val[kk], 1 + ((i) + cc) % 2, 1); kk++; } \
+		mpq_set_si (a, 50 + (i) % 9, 1); snprintf (nm, sizeof nm, "g%d", (i)); char se = (i) % 11 == 3 ? 'G' : 'L'; if (se == 'G') mpq_set_si (a, 0, 1); \
+		rv = mpq_QSadd_row (S.p, kk, ind, val, &a, se, nm); STAT ("api_transitions"); if (rv) { bad = 1; break; } \
+		int ri = ref_add_row (S.M, se, a, NULL, nm); for (int q = 0; q < kk; q++) mpq_set (REF_A (S.M, ri, ind[q]), val[q]); } while (0)
+	if (shape == 0) { for (int i = 0; i < k && !bad; i++) ADDROW (i, 0); for (int j = 0; j < k && !bad; j++) ADDCOL (j, 1); }
+	else if (shape == 1) { for (int j = 0; j < k && !bad; j++) ADDCOL (j, 0); for (int i = 0; i < k && !bad; i++) ADDROW (i, 1); }
+	else if (shape == 2) { for (int i = 0; i < k && !bad; i++) { ADDCOL (i, 1); if (bad) break; ADDROW (i, 1); } }
+	else {
+		/* 40 columns, 60 rows, then fill entry by entry with change_coef up to the nz target */
+		int target = GNZ[ki % 4] + (ki >= 4 ? 1 : 0);
+		for (int j = 0; j < 40 && !bad; j++) ADDCOL (j, 0);
+		for (int i = 0; i < 60 && !bad; i++) ADDROW (i, 0);
+		int nz = 0;
+		for (int i = 0; i < 60 && nz < target && !bad; i++) for (int j = 0; j < 40 && nz < target; j++) {
+			mpq_set_si (a, 1 + (i + j) % 5, 1 + (i * j) % 3);
+			rv = mpq_QSchange_coef (S.p, i, j, a); STAT ("api_transitions");
+			if (rv) { bad = 1; break; }
+			mpq_set (REF_A (S.M, i, j), a); nz++;
+			if (nz == 998 || nz == 1000 || nz == 1002 || nz == 2000) if (gconf (&S, "nz threshold", &desc)) { bad = 2; break; }
+		}
+		sb_printf (&desc, " nztarget=%d", target);
+	}
+	if (bad == 1) viol ("C06", "grow-valid-call-rejected", "a valid add/change call returned %d [history: %s]", rv, desc.s);
+	if (!bad && gconf (&S, "after growth", &desc)) bad = 2;
+	if (!bad) {
+		int m = S.M->m, n = S.M->n;
+		int p = posv[pi] < 0 ? m + posv[pi] : posv[pi]; if (p >= m) p = m - 1;
+		int *fl = calloc ((size_t) (m > n ? m : n) + 2, sizeof (int));
+		fl[p] = 1;
+		rv = mpq_QSdelete_row (S.p, p); STAT ("api_transitions");
+		if (rv) { viol ("C06", "grow-valid-call-rejected", "delete_row(%d) returned %d [history: %s]", p, rv, desc.s); bad = 1; }
+		else { ref_del_rows (S.M, fl); if (gconf (&S, "after delete_row", &desc)) bad = 2; }
+		memset (fl, 0, sizeof (int) * ((size_t) (m > n ? m : n) + 2));
+		if (!bad) {
+			int q = posv[pi] < 0 ? n + posv[pi] : posv[pi]; if (q >= n) q = n - 1;
+			int l3[3] = { q, (q + 7) % n, (q + 51) % n }, cnt = 0, dl[3];
+			for (int t = 0; t < 3; t++) if (!fl[l3[t]]) { fl[l3[t]] = 1; dl[cnt++] = l3[t]; }
+			rv = mpq_QSdelete_cols (S.p, cnt, dl); STAT ("api_transitions");
+			if (rv) { viol ("C06", "grow-valid-call-rejected", "delete_cols returned %d [history: %s]", rv, desc.s); bad = 1; }
+			else { ref_del_cols (S.M, fl); if (gconf (&S, "after delete_cols", &desc)) bad = 2; }
+		}
+		free (fl);
+		for (int t = 0; t < 5 && !bad; t++) { ADDROW (1000 + t, 1); if (bad) break; ADDCOL (1000 + t, 1); }
+		if (!bad && gconf (&S, "after re-adding", &desc)) bad = 2;
+	}
+	if (!bad) {
+		/* the grown-and-edited object must solve like a freshly loaded copy of the model */
+		STAT ("histories"); STAT ("instances_nontrivial");
+		int st1 = 0, st2 = 0; mpq_t v1, v2; mpq_init (v1); mpq_init (v2);
+		int r1 = QSexact_solver (S.p, NULL, NULL, NULL, DUAL_SIMPLEX, &st1);
+		if (!r1 && st1 == QS_LP_OPTIMAL) mpq_QSget_objval (S.p, &v1);
+		mpq_QSprob f = qsx_build (S.M, ROUTE_LOAD, 0);
+		int r2 = f ? QSexact_solver (f, NULL, NULL, NULL, DUAL_SIMPLEX, &st2) : -1;
+		if (f && !r2 && st2 == QS_LP_OPTIMAL) mpq_QSget_objval (f, &v2);
+		STAT ("api_transitions");
+		tr_int (r1); tr_int (st1); tr_mpq (v1);
+		if (r1 != r2 || st1 != st2 || !mpq_equal (v1, v2)) viol ("C05", "grow-solve-differs", "grown object solves to rval=%d status=%s, a fresh copy to rval=%d status=%s [history: %s]", r1, status_name (st1), r2, status_name (st2), desc.s);
+		{ char nm2[48]; snprintf (nm2, sizeof nm2, "status_%s", r1 ? "ERR" : status_name (st1)); stat_dyn (nm2, ""); }
+		if (f) mpq_QSfree_prob (f);
+		mpq_clear (v1); mpq_clear (v2);
+		if (sample_wanted ()) sample ("%s -> %d rows %d cols, status %s", desc.s, S.M->m, S.M->n, status_name (st1));
+	}
+	for (int i = 0; i < 40; i++) mpq_clear (val[i]);
+	mpq_clear (a); mpq_clear (b); mpq_clear (c); mpq_clear (z);
+	if (S.p) mpq_QSfree_prob (S.p);
+	ref_free (S.M);
+	qsx_stop ();
+	if (mem_tracking () && !bad) { size_t mem1 = mem_now (); STAT ("mem_balance_checked"); if (mem1 != mem0) viol ("C18", "grow-leak", "%ld bytes remain allocated [history: %s]", (long) mem1 - (long) mem0, desc.s); }
+	sb_free (&S.desc); sb_free (&desc);
+}
+Family fam_grow = { "grow", "long enumerated histories across the 100-row/column and 1000-entry growth thresholds (C06)", grow_init, grow_count, grow_run, NULL, 300 };
